@@ -681,6 +681,44 @@ fn lt_from_index(k: usize) -> Option<LabelType> {
 
 fn step_inner(s: &mut Sess, toks: &[&str]) -> Option<String> {
     match toks {
+        // the crate's constants as the compiler evaluated them (used by tools/gen_lean.py when it does not
+        // recognise the form of a definition in src/gse_standard.rs)
+        ["consts"] => {
+            use dvb_gse_rust::gse_standard::*;
+            let v: Vec<(&str, u64)> = vec![
+                ("COMPLETE_PKT", COMPLETE_PKT as u64),
+                ("FIRST_PKT", FIRST_PKT as u64),
+                ("INTERMEDIATE_PKT", INTERMEDIATE_PKT as u64),
+                ("END_PKT", END_PKT as u64),
+                ("START_END_MASK", START_END_MASK as u64),
+                ("LABEL_6_B", LABEL_6_B as u64),
+                ("LABEL_3_B", LABEL_3_B as u64),
+                ("LABEL_BROADCAST", LABEL_BROADCAST as u64),
+                ("LABEL_REUSE", LABEL_REUSE as u64),
+                ("LABEL_TYPE_MASK", LABEL_TYPE_MASK as u64),
+                ("LABEL_6_B_LEN", LABEL_6_B_LEN as u64),
+                ("LABEL_3_B_LEN", LABEL_3_B_LEN as u64),
+                ("LABEL_BROADCAST_LEN", LABEL_BROADCAST_LEN as u64),
+                ("LABEL_REUSE_LEN", LABEL_REUSE_LEN as u64),
+                ("FIXED_HEADER_LEN", FIXED_HEADER_LEN as u64),
+                ("PROTOCOL_LEN", PROTOCOL_LEN as u64),
+                ("FRAG_ID_LEN", FRAG_ID_LEN as u64),
+                ("TOTAL_LENGTH_LEN", TOTAL_LENGTH_LEN as u64),
+                ("FIRST_FRAG_LEN", FIRST_FRAG_LEN as u64),
+                ("GSE_LEN_MAX", GSE_LEN_MAX as u64),
+                ("GSE_LEN_MASK", GSE_LEN_MASK as u64),
+                ("TOTAL_LEN_MAX", TOTAL_LEN_MAX as u64),
+                ("CRC_LEN", CRC_LEN as u64),
+                ("CRC_INIT", CRC_INIT as u64),
+                ("SECOND_RANGE_PTYPE", SECOND_RANGE_PTYPE as u64),
+                ("MAX_MANDATORY_VAL_PTYPE", MAX_MANDATORY_VAL_PTYPE as u64),
+                ("NCR_PROTOCOL_ID", NCR_PROTOCOL_ID as u64),
+                ("INTERNAL_SIGNALING_PROTOCOL_ID", INTERNAL_SIGNALING_PROTOCOL_ID as u64),
+                ("H_LEN_MASK", H_LEN_MASK as u64),
+            ];
+            let body: Vec<String> = v.iter().map(|(n, x)| format!("{}={}", n, x)).collect();
+            Some(format!("ok {} | -", body.join(",")))
+        }
         ["hdr_gen", k, lt, len] => {
             let k: usize = k.parse().ok()?;
             let lt = lt_from_index(lt.parse().ok()?)?;
